@@ -165,6 +165,17 @@ func runReplay(path string) int {
 		fmt.Fprintln(os.Stderr, "no replay for property", v.Prop)
 		return 2
 	}
+	if v.NeedsHistory {
+		// the counterexample is "shard Shard/NShards of the tier, up to the first case with this signature"
+		os.Setenv("VERIF_STOP_AT_SIG", v.Sig)
+		os.Setenv("VERIF_STOP_EXIT1", "1")
+		tmp, _ := os.CreateTemp("", "verif-hist-*.json")
+		tmp.Close()
+		defer os.Remove(tmp.Name())
+		runWorker(v.Prop, v.Tier, v.Shard, v.NShards, tmp.Name(), "") // exits with REPRODUCED when the signature is met
+		fmt.Println("NOT-REPRODUCED (the shard ran to its end without this signature)")
+		return 0
+	}
 	violated, sig, exp, obs := p.Replay(v.Case)
 	fmt.Printf("property=%s\ncase=%s\nexpected=%s\nobserved=%s\nsignature=%s\n", v.Prop, string(v.Case), exp, obs, sig)
 	if violated {
@@ -401,6 +412,27 @@ func runParent(prop, tier string) int {
 			err := cmd.Run()
 			if err != nil { // exit 1 = reproduced; a crash also counts for fatal signatures
 				repro++
+			}
+		}
+		if repro == 0 && v.NShards > 0 && !strings.HasPrefix(s, "fatal/") {
+			// not reproducible in isolation: does it come back when the shard that met it is run again up to it?
+			// (then the earlier cases leave state behind that changes what this one does: history dependence)
+			hist := 0
+			const histTries = 3
+			for k := 0; k < histTries; k++ {
+				cmd := exec.Command(self, "worker", prop, v.Tier, strconv.Itoa(v.Shard), strconv.Itoa(v.NShards), filepath.Join(work, "hist.json"))
+				cmd.Env = append(os.Environ(), "VERIF_STOP_AT_SIG="+s, "VERIF_SHARD_DIR="+filepath.Join(shardBase, fmt.Sprintf("d%d", v.Shard)))
+				if err := cmd.Run(); err != nil {
+					if ee, ok := err.(*exec.ExitError); ok && ee.ExitCode() == exitHistoryReproduced {
+						hist++
+					}
+				}
+			}
+			if hist == histTries {
+				repro = tries
+				v.NeedsHistory = true
+				v.Note = strings.TrimSpace(v.Note + " the case alone does not show it in a fresh process; re-running its shard up to the case does, every time (state left behind by earlier cases)")
+				b, _ = json.MarshalIndent(v, "", " ")
 			}
 		}
 		if repro == 0 {
